@@ -20,7 +20,8 @@ def run_case(case, taps='all'):
     if mode == 'mux':
         return M.run_mux(case['pipe'], case['src'], timescale=case.get('timescale'), taps=taps,
                          dl_late=case.get('dl_late', False), share_ops=case.get('share_ops', False),
-                         warmup=case.get('warmup'), store_split=case.get('store_split'))
+                         warmup=case.get('warmup'), store_split=case.get('store_split'),
+                         feedback=case.get('feedback'))
     if mode == 'src':
         return M.run_src(case['pipe'], case['src'], complete=case.get('complete', True),
                          timescale=case.get('timescale'), taps=taps, root=case.get('root', 'store'),
@@ -149,7 +150,7 @@ def judge(V, cases, relevant, stats, family='', keep_traces=None, isolation=None
                          'mode': tr['mode'], 'src': tr['src'],
                          'timescale': cases[i].get('timescale'), 'multi': cases[i].get('multi'),
                          'root': cases[i].get('root', 'store'), 'dl_late': cases[i].get('dl_late', False),
-                         'share_ops': cases[i].get('share_ops', False), 'warmup': cases[i].get('warmup'), 'store_split': cases[i].get('store_split'),
+                         'share_ops': cases[i].get('share_ops', False), 'warmup': cases[i].get('warmup'), 'store_split': cases[i].get('store_split'), 'feedback': cases[i].get('feedback'),
                          'clauses': ['%s:%s' % pn for pn in names]},
                         '+'.join(sorted({n for _, n in mine})),
                         detail='first rejected at source step %s' % step)
@@ -172,7 +173,7 @@ def judge(V, cases, relevant, stats, family='', keep_traces=None, isolation=None
                          'pipe': json.dumps(tr['pipe'], sort_keys=True), 'mode': tr['mode'],
                          'src': tr['src'], 'timescale': c.get('timescale'), 'untapped': True,
                          'multi': c.get('multi'), 'root': c.get('root', 'store'), 'dl_late': c.get('dl_late', False),
-                         'share_ops': c.get('share_ops', False), 'warmup': c.get('warmup'), 'store_split': c.get('store_split'),
+                         'share_ops': c.get('share_ops', False), 'warmup': c.get('warmup'), 'store_split': c.get('store_split'), 'feedback': c.get('feedback'),
                          'clauses': ['untapped-differs']}, 'untapped-differs',
                         detail='without inner taps: end=%s out=%s' % (u['end'], json.dumps(ends(u)[0])[:300]))
             stats['untapped_differs'] = stats.get('untapped_differs', 0) + 1
@@ -195,6 +196,8 @@ def replay(prop, path, relevant):
         case['warmup'] = w['warmup']
     if w.get('store_split'):
         case['store_split'] = w['store_split']
+    if w.get('feedback'):
+        case['feedback'] = w['feedback']
     tr = run_case(case)
     if w.get('untapped'):
         u = run_case(case, taps='ends')
